@@ -186,6 +186,17 @@ def drive_watch(ctx, exe, srcs, model, violations, seq=None, feat=0):
         "far halt\n.blkw x200\nbr far\n",          # fails only at emission
         "far halt\nbr far\n",                       # valid
         "halt\n",
+        # versions that assemble to NO statement but record a label (before `.orig` / `.break`), then versions that define
+        # or only reference that label: the re-check after an 'empty' success starts from a clean table too
+        "start .orig x3000\n",
+        "start add r0 r0 #1\nhalt\n",              # valid alone
+        "here .break\n",
+        "br here\nhalt\n",                          # invalid alone: `here` is not defined in THIS version
+        "",
+        "start .orig x3000\n",
+        "br start\nhalt\n",                         # invalid alone
+        "; only a comment\n",
+        "start halt\n",
     ]
     if seq is None:
         extra = [srcs[i][1] for i in range(len(srcs)) if srcs[i][0] == feat and isinstance(srcs[i][1], str)][:200:17][: (3 if ctx.tier == "quick" else 12)]
